@@ -117,7 +117,7 @@ def run(pid, tier):
             jobs.append((name, data, "default+third-party-fixers", rec))
         own = name.split("/")[0]
         if own == "fixfam":
-            own = name.split("/")[3]                      # the rule whose trigger the document carries: that rule alone as well
+            own = name.split("/")[3][:5]                    # the rule whose trigger the document carries: that rule alone as well
         for rule in allfix:
             r_ = rule.lower()
             if own == r_ or (name.startswith(("extra", "gen/", "sys/")) and (tier == "thorough" and hk % 4 == 0 or (hk + int(r_[2:] if r_[2:].isdigit() else 0)) % 40 == 0)):
